@@ -3,6 +3,7 @@ pub mod c01;
 pub mod c02;
 pub mod c03;
 pub mod c04;
+pub mod c06;
 
 use crate::explore::{Limits, Violation};
 use crate::world::{Outcome, Scenario};
@@ -24,6 +25,7 @@ pub fn sim_check(id: &str, tier: &str, _seed: i64) -> Option<SimCheck> {
         "C02" => Some(c02::build(tier)),
         "C03" => Some(c03::build(tier)),
         "C04" => Some(c04::build(tier)),
+        "C06" => Some(c06::build(tier)),
         _ => None,
     }
 }
